@@ -17,7 +17,7 @@ timeout 600 /venv/bin/python -B "$sd/demo.py" >"$sd/demo_with.txt" 2>&1; rc_with
 # test_server.py binds a fixed port: run it apart, serialised by a lock, retried when another suite held the port
 timeout 1800 /venv/bin/python -m pytest -ra -q -p no:cacheprovider --timeout=900 --continue-on-collection-errors --ignore=asimap/test/test_server.py >"$sd/suite_with.txt" 2>&1
 for try in 1 2 3 4 5; do
-  flock /tmp/seed2/server.lock timeout 600 /venv/bin/python -m pytest -ra -q -p no:cacheprovider --timeout=900 asimap/test/test_server.py >"$sd/suite_server_with.txt" 2>&1
+  flock ${SEEDROOT:-/tmp/seed2}/server.lock timeout 600 /venv/bin/python -m pytest -ra -q -p no:cacheprovider --timeout=900 asimap/test/test_server.py >"$sd/suite_server_with.txt" 2>&1
   grep -q 'test_server_capability' "$sd/suite_server_with.txt" || break
   sleep 7
 done
